@@ -239,6 +239,9 @@ class ThreadRun:
         kw["network_backend"] = SimBackend(self.net)
         self.pool = httpcore.ConnectionPool(**kw)
         self.origins = self._origins_of_calls()
+        from .driver import ind_origin_of
+
+        self.origin_keys = [ind_origin_of(o) for o in self.origins]
         self.preempt_lines = preempt_lines
         self.sched.on_switch = self._after_quantum
         self.tasks = {}
